@@ -33,7 +33,7 @@ def gen_case(seed, cid, n_inputs, features=None, depth=3, observe_all=False):
     p = g.program(observe_all=observe_all)
     args = []
     for i in range(n_inputs):
-        if i % 2 == 0:
+        if i % 2 == 0 or (features and "core" in features and i % 3 != 2):
             args.append([small_value(rng, t) for _, t in p["params"]])
         else:
             args.append([T.rand_value(rng, t, 0.4) for _, t in p["params"]])
@@ -188,6 +188,66 @@ RULE = ("type-directed random programs (all literal types written out; helpers, 
         "with the Lean source semantics run on the generator's tree. non-trivial = runs that complete with a value")
 
 
+def core_phase(ctx, n):
+    """programs of the fragment of Model/BitSem.lean: circuit vs bit-level model vs source semantics"""
+    fs = []
+    cases = [gen_case(ctx.rng.randrange(1 << 48), i, 6, features={"core"}, depth=4) for i in range(n)]
+    impl = common.run_lines_guarded(common.GVH, [impl_case(c, "ssa", True) for c in cases], per_case_timeout=20.0)
+    bit, _, _ = ctx.run_model([dict(model_case(c), op="bit_eval") for c in cases], timeout=3000)
+    tally = {"value": 0, "panic": 0, "outside": 0}
+    for c in cases:
+        r, m = impl.get(c["id"]), bit.get(c["id"])
+        sub = {"op": "c01", "seed": c["seed"], "gen": c["gen"], "src": c["src"], "config": "core"}
+        if r is None or not r.get("ok") or m is None:
+            fs.append(Failure("model", "c01:core:no-result", f"no result for a program of the core fragment: {json.dumps(r)[:200]}", sub, None, r))
+            continue
+        if "outside" in m:
+            tally["outside"] += 1
+            fs.append(Failure("model", "c01:core:generator-left-the-fragment", "the generator's core mode produced a program that Bit.bitStmts does not cover", sub, None, None))
+            continue
+        for a, out, mm in zip(c["args"], r["outs"], m["results"]):
+            one = dict(sub, args=[gen_prog.val_json(t, v) for (_, t), v in zip(c["params"], a)])
+            if "outside" in mm:
+                tally["outside"] += 1
+                break
+            if out.startswith("panic@"):
+                fs.append(Failure("oracle", "c01:eval-panics", f"evaluating the compiled circuit panics: {out[:120]}", one, "output bits", out))
+                break
+            flag, reason, value = out[0], int(out[1:33], 2), out[161:]
+            if mm["panic"] is not None:
+                tally["panic"] += 1
+                ok = flag == "1" and reason == PANIC_CODES[mm["panic"]]
+            else:
+                tally["value"] += 1
+                ok = flag == "0" and value == mm["bits"]
+            if not ok:
+                fs.append(Failure("model", "c01:core:bit-level-model-differs", "the circuit and the bit-level model of compile.rs (Bit.bitStmts) disagree", one, mm, out[:40] + "…" + value))
+                break
+    return fs, tally
+
+
 def run(ctx):
-    n = 1500 if ctx.tier == "quick" else 30000
-    return explore(ctx, PROP_MODULES, n, {}, RULE, ["programs of nesting depth <= 3, arrays of at most 4 elements"])
+    quick = ctx.tier == "quick"
+    ctx.audit(PROP_MODULES)
+    failures = ctx.proof_failures()
+    ok, log = ctx.build_harness()
+    if not ok:
+        failures.append(Failure("model", "harness-build-failed", "cargo build of the harness failed: " + log[-400:]))
+        return common.finish(ctx, failures, {"evaluations": 0, "distinct_nontrivial": 0, "samples": []}, [], "proof")
+    fs, tally, stats, cases = collect(ctx, 1500 if quick else 30000, {})
+    failures += fs
+    cfs, ctally = core_phase(ctx, 600 if quick else 12000)
+    failures += cfs
+    seen, uniq = set(), []
+    for f in failures:
+        if f.signature not in seen:
+            seen.add(f.signature); uniq.append(f)
+    coverage = {
+        "evaluations": tally["value"] + tally["panic"] + ctally["value"] + ctally["panic"],
+        "distinct_nontrivial": tally["value"] + ctally["value"],
+        "rule": RULE + ". Second stream: programs of the core fragment (the one theorem C01_core covers) run through the circuit and through "
+                "the bit-level model Bit.bitStmts; bits, panic flag and reason must agree exactly.",
+        "distribution": {"runs": tally, "core_fragment_runs": ctally, "generator": stats},
+        "samples": [{"src": cases[0]["src"]}, {"src": cases[1]["src"]}],
+    }
+    return common.finish(ctx, uniq, coverage, ["programs of nesting depth <= 3 (core: 4), arrays of at most 4 elements"], "proof", search=None)
